@@ -54,6 +54,9 @@ pub enum IdSel {
     Held(u16, bool),
     /// an id nobody holds
     Miss(u8, bool),
+    /// almost the id of the k-th credential: 0 its first half, 1 the id plus one byte, 2 the empty id, 3 all but its last byte
+    /// (nobody holds these either)
+    Near(u16, u8, bool),
 }
 
 #[derive(Clone, Debug, Serialize, Deserialize, PartialEq, Eq, Hash)]
@@ -70,6 +73,9 @@ pub struct CaseA {
     pub create: bool,
     pub rp: usize,
     pub list: ListSel,
+    /// reference store only: a lookup that matches nothing answers Ok(empty list) instead of NoCredentials
+    #[serde(default)]
+    pub empty_ok: bool,
 }
 
 /// credential ids of varying length (1..=255 bytes, incl. lengths an authenticator of this library never mints)
@@ -93,6 +99,16 @@ fn list_ids(sel: &ListSel, n: usize) -> Option<Vec<(Vec<u8>, bool)>> {
                     IdSel::Held(k, t) if n > 0 => (cred_id(idx(*k, n)), *t),
                     IdSel::Held(_, t) => (b"nothing-held".to_vec(), *t),
                     IdSel::Miss(m, t) => (format!("missing-{m}").into_bytes(), *t),
+                    IdSel::Near(k, mode, t) => {
+                        let id = if n > 0 { cred_id(idx(*k, n)) } else { b"nothing-held".to_vec() };
+                        let near = match mode % 4 {
+                            0 => id[..id.len() / 2].to_vec(),
+                            1 => [id.as_slice(), b"\0"].concat(),
+                            2 => vec![],
+                            _ => id[..id.len() - 1].to_vec(),
+                        };
+                        (near, *t)
+                    }
                 })
                 .collect(),
         ),
@@ -265,6 +281,10 @@ pub fn check_a(ctx: &mut Ctx, c: &CaseA) -> Result<(), String> {
     match c.kind {
         Kind::Ref => {
             let s = RefStore::new(Disc::Full);
+            s.set_empty_ok(c.empty_ok);
+            if c.empty_ok {
+                ctx.class("authenticator/reference store answering a miss with Ok(empty)");
+            }
             run_a(ctx, s.clone(), c, Some(s))
         }
         Kind::Memory => run_a(ctx, MemoryStore::new(), c, None),
@@ -585,13 +605,16 @@ fn cred_desc() -> impl Strategy<Value = CredDesc> {
 }
 
 fn list_sel() -> impl Strategy<Value = ListSel> {
-    let id = prop_oneof![4 => (any::<u16>(), proptest::bool::weighted(0.8)).prop_map(|(k, t)| IdSel::Held(k, t)), 1 => (any::<u8>(), proptest::bool::weighted(0.6)).prop_map(|(k, t)| IdSel::Miss(k, t))];
+    let id = prop_oneof![8 => (any::<u16>(), proptest::bool::weighted(0.8)).prop_map(|(k, t)| IdSel::Held(k, t)), 2 => (any::<u8>(), proptest::bool::weighted(0.6)).prop_map(|(k, t)| IdSel::Miss(k, t)), 3 => (any::<u16>(), 0u8..4, proptest::bool::weighted(0.8)).prop_map(|(k, m, t)| IdSel::Near(k, m, t))];
     prop_oneof![2 => Just(ListSel::Absent), 2 => Just(ListSel::Empty), 5 => proptest::collection::vec(id, 1..5).prop_map(ListSel::Ids)]
 }
 
 fn case_a() -> impl Strategy<Value = CaseA> {
     (prop_oneof![4 => Just(Kind::Ref), 2 => Just(Kind::Memory), 1 => Just(Kind::OptionSlot), 1 => Just(Kind::ArcMutexMemory)], proptest::collection::vec(cred_desc(), 0..9), any::<bool>(), 0usize..5, list_sel())
-        .prop_map(|(kind, contents, create, rp, list)| CaseA { kind, contents, create, rp, list })
+        .prop_map(|(kind, contents, create, rp, list)| {
+            let empty_ok = kind == Kind::Ref && (contents.len() + rp) % 2 == 1;
+            CaseA { kind, contents, create, rp, list, empty_ok }
+        })
 }
 
 fn case_b() -> impl Strategy<Value = CaseB> {
@@ -612,7 +635,7 @@ fn case_b() -> impl Strategy<Value = CaseB> {
 
 pub fn run(ctx: &mut Ctx) {
     let fs = ctx.first_shard();
-    ctx.rule = "(A) authenticator over the reference store (contract semantics, call log), MemoryStore, the Option slot and Arc<Mutex<MemoryStore>>: contents of 0-8 credentials over 5 RP IDs (two in a parent/child domain relation, two differing only in letter case) with equal user handles across RPs; assertions and registrations with every allow/exclude-list shape (absent, empty, hits, misses, ids of another RP, unknown descriptor types). (B) contract conformance of every shipped store and lock wrapper on generated save/update/query sequences. (C) the six lock wrappers with another task holding the lock (mutex / write lock / read lock) while a lookup, and through the Arc wrappers an update or a save, is issued: the call may wait but must answer per the contract. Non-trivial = (A) at least two RPs populated and a list that names a foreign RP's id, (B) a query whose expected result differs from 'all credentials'; distinct by case / by (store, contents, query).".into();
+    ctx.rule = "(A) authenticator over the reference store (contract semantics, call log), MemoryStore, the Option slot and Arc<Mutex<MemoryStore>>: contents of 0-8 credentials over 5 RP IDs (two in a parent/child domain relation, two differing only in letter case) with equal user handles across RPs; assertions and registrations with every allow/exclude-list shape (absent, empty, hits, misses, near misses — half of a held id, a held id plus or minus one byte, the empty id —, ids of another RP, unknown descriptor types); the reference store answers a miss with NoCredentials or with Ok(empty). (B) contract conformance of every shipped store and lock wrapper on generated save/update/query sequences. (C) the six lock wrappers with another task holding the lock (mutex / write lock / read lock) while a lookup, and through the Arc wrappers an update or a save, is issued: the call may wait but must answer per the contract. Non-trivial = (A) at least two RPs populated and a list that names a foreign RP's id, (B) a query whose expected result differs from 'all credentials'; distinct by case / by (store, contents, query).".into();
     ctx.assumptions = vec![
         "lookup contract: result = { c | c.rp_id == rp_id and (ids is None or c.id in ids) } as a set; an empty result may be Ok([]) or NoCredentials".into(),
         "'first credential the store lists' is asserted on the reference store, whose listing order is insertion order".into(),
@@ -637,7 +660,7 @@ pub fn run(ctx: &mut Ctx) {
     for kind in [Kind::Ref, Kind::Memory, Kind::OptionSlot, Kind::ArcMutexMemory].into_iter().filter(|_| fs) {
         for list in [ListSel::Empty, ListSel::Absent, ListSel::Ids(vec![IdSel::Miss(1, false)]), ListSel::Ids(vec![IdSel::Miss(1, true)]), ListSel::Ids(vec![IdSel::Held(0, false)])] {
             for create in [true, false] {
-                let c = CaseA { kind, contents: vec![CredDesc { rp: 0, user: 0, counter: None }], create, rp: 0, list: list.clone() };
+                let c = CaseA { kind, contents: vec![CredDesc { rp: 0, user: 0, counter: None }], create, rp: 0, list: list.clone(), empty_ok: false };
                 if let Err(e) = check_a(ctx, &c) {
                     ctx.violation("authenticator-fixed", json!(c), &e);
                 }
